@@ -16,14 +16,14 @@ def patch_head(data, node, new_arg, width=None):
     return data[:node.start] + cbor.enc_head(node.major, new_arg, width) + data[node.start + hl:]
 
 
-KINDS = ['uint_boundary', 'len_lie_container', 'len_lie_string', 'major_flip', 'nest_array', 'nest_indef', 'nest_map', 'nest_tag',
+KINDS = ['field_boundary', 'uint_boundary', 'len_lie_container', 'len_lie_string', 'major_flip', 'nest_array', 'nest_indef', 'nest_map', 'nest_tag',
          'truncate', 'tps_zero', 'time_huge', 'name_garbage', 'byte_flip', 'byte_insert', 'byte_delete', 'dup_key', 'splice',
          'random_bytes', 'empty', 'ai_reserved', 'indef_unterminated', 'huge_string_head']
 
 
 def mutate(r, data, kind=None):
     """-> (kind, bytes).  data is a valid file."""
-    kind = kind or r.choice(KINDS)
+    kind = kind or r.choice(KINDS + ['field_boundary'] * 3)
     try:
         root = cbor.decode_one(data)
     except cbor.CborError:
@@ -33,6 +33,32 @@ def mutate(r, data, kind=None):
     def pick(pred):
         c = [n for n in nodes if pred(n)]
         return r.choice(c) if c else None
+    if kind == 'field_boundary':
+        # a boundary integer in one NAMED numeric member (schema-aware: every numeric field of every map gets its turn,
+        # time offsets / earliest time / tick rate / table indices preferentially)
+        from . import cdns_schema
+        try:
+            doc = cdns_schema.parse(data)
+        except Exception:
+            return kind, data
+        cands, hot = [], []
+        for n in cbor.walk(doc.root):
+            if n.major == MAP and n.ann:
+                for k, v in n.value:
+                    if v.major in (UINT, NEG):
+                        cands.append(v)
+                        if (n.ann in ('QueryResponse', 'MalformedMessage') and k.value == 0) or (n.ann == 'StorageParameters' and k.value == 0) \
+                                or n.ann in ('BlockPreamble',):
+                            hot.append(v)
+                    elif v.major == ARRAY and n.ann == 'BlockPreamble':
+                        hot += [c for c in v.value if c.major == UINT]
+        pool = hot if (hot and r.random() < 0.5) else cands
+        if not pool:
+            return kind, data
+        v = r.choice(pool)
+        val = r.choice([2 ** 63, 2 ** 63, 2 ** 63 - 1, 2 ** 63 + 1, 2 ** 64 - 1, 2 ** 32, 2 ** 32 - 1, 2 ** 31, 0, 1, 2 ** 62, 65536, 255])
+        out = data[:v.start] + cbor.enc_head(0, val) + data[v.end:]
+        return kind, out
     if kind == 'uint_boundary':
         out = data
         for _ in range(r.choice([1, 1, 2, 4])):
